@@ -616,6 +616,7 @@ func (e *Exec) atReturn(fr *Frame, st *State, res []Value, c *Contract) {
 	for _, h := range e.retHooks {
 		h(e, fr, st, res)
 	}
+	e.resultIndependence(fr, st, res)
 	if c == nil {
 		return
 	}
@@ -675,4 +676,44 @@ func (e *Exec) contractLoopInvs(fr *Frame, h *ssa.BasicBlock, li *loopInfo, phis
 			})
 		}
 	}
+}
+
+// resultIndependence (family M2): a returned list is freshly allocated, empty,
+// or (mode fresh-or-tail) a true tail view of one of the first arguments.
+func (e *Exec) resultIndependence(fr *Frame, st *State, res []Value) {
+	mode := e.Opt.ResultIndependent
+	if mode == "" || len(res) != 1 {
+		return
+	}
+	r, ok := res[0].(*Term)
+	if !ok || r.Sort != SObj {
+		return
+	}
+	sp := e.P.SPkgs[ModPath]
+	if sp == nil {
+		return
+	}
+	lt := sp.Pkg.Scope().Lookup("List")
+	if lt == nil {
+		return
+	}
+	listTag := IntLit(int64(e.tag(lt.Type())))
+	sl := App(SSl, "o-sl", r)
+	id := App(SInt, "sl-id", sl)
+	alloc0 := e.heapRead(e.entry, "$alloc", SInt)
+	okT := Or(Eq(App(SInt, "sl-len", sl), IntLit(0)), Le(alloc0, id))
+	if mode == "fresh-or-tail" && e.rootArgs != nil {
+		h := e.heapRead(e.entry, "A_Obj", ArrSort(ArrSort(SObj)))
+		aid, aoff, alen := App(SInt, "sl-id", e.rootArgs), App(SInt, "sl-off", e.rootArgs), App(SInt, "sl-len", e.rootArgs)
+		for i := 0; i < 3; i++ {
+			ai := Select(Select(h, aid), Add(aoff, IntLit(int64(i))))
+			asl := App(SSl, "o-sl", ai)
+			tail := And(Lt(IntLit(int64(i)), alen), Eq(App(SInt, "o-tag", ai), listTag), Eq(App(SInt, "sl-id", asl), id),
+				Eq(Add(App(SInt, "sl-off", sl), App(SInt, "sl-len", sl)), Add(App(SInt, "sl-off", asl), App(SInt, "sl-len", asl))),
+				Le(App(SInt, "sl-off", asl), App(SInt, "sl-off", sl)))
+			okT = Or(okT, tail)
+		}
+	}
+	e.retN++
+	e.oblige(st, "frame:result", fmt.Sprintf("independent-ret%d", e.retN), Implies(Eq(App(SInt, "o-tag", r), listTag), okT), "", id, App(SInt, "sl-len", sl))
 }
